@@ -54,18 +54,22 @@ def defaults_for_untyped():
     return [("absent", None), ("int", 5), ("str", "a"), ("none", A.NoneStr)]
 
 
+CORE_TYPES = ["int", "float", "str", "bool", "Optional[str]", "Optional[int]", "List[str]", "Literal['a', 'b']"]
+
+
 def _space(tier):
     full = []
     for t in A.TYPES:
         for dk, dv in A.defaults_for(t):
-            for ck, cv in A.DOCS + DOCS_TRIGGER:
+            # quick tier: every description kind (incl. the trigger words) for eight core types; the other type shapes with four description kinds
+            for ck, cv in (A.DOCS + DOCS_TRIGGER if tier != "quick" or t in CORE_TYPES else [d for d in A.DOCS if d[0] in ("plain", "long", "multiline", "nodoc")]):
                 full.append(((t, dk, ck), A.make_param(t, dk, dv, ck, cv)))
     for dk, dv in defaults_for_untyped():
         for ck, cv in A.DOCS[:1] + DOCS_TRIGGER:
             full.append(((None, dk, ck), A.make_param(None, dk, dv, ck, cv)))
     small = A.sigma_int() + [((None, "int", "t_number"), A.make_param(None, "int", 5, "t_number", "number of items")),
                              (("str", "absent", "t_whether"), A.make_param("str", "absent", None, "t_whether", "whether to do it"))]
-    yield from A.ir_space(full, small, 2 if tier == "quick" else 3, returns_1=A.RETURNS[:3] + A.RETURNS[4:], returns_n=A.RETURNS[:2])
+    yield from A.ir_space(full, small, 2 if tier == "quick" else 3, returns_1=(A.RETURNS[:2] + A.RETURNS[4:]) if tier == "quick" else (A.RETURNS[:3] + A.RETURNS[4:]), returns_n=A.RETURNS[:2])
 
 
 def cases(tier, seed):
